@@ -187,6 +187,15 @@ func genFaulty(r *simrt.RNG, tier string, variant int, prop string) Plan {
 		}
 		p.Faults = append(p.Faults, f2)
 	}
+	// a third outage on the connection after that (state accumulated across reconnects)
+	if r.Bool(0.2) {
+		f3 := Fault{Kind: Pick(r, []string{"fin", "rst"}), Dir: Pick(r, []string{"c2s", "s2c"}), Pipe: -2, Phase: 2,
+			Frame: r.Intn(4), Pos: Pick(r, cutPos)}
+		if len(p.Faults) == 0 || p.Faults[len(p.Faults)-1].Pipe != -2 {
+			p.Faults = append(p.Faults, Fault{Kind: "rst", Dir: "s2c", Pipe: -2, Phase: 1, Frame: r.Intn(4), Pos: "after"})
+		}
+		p.Faults = append(p.Faults, f3)
+	}
 	p.Params["settle1_ms"] = Pick(r, []int64{50, 500, 5000, 40000, 70000})
 	return p
 }
@@ -258,7 +267,11 @@ func runFaulty(e *Env, p *Plan) {
 			if f.Pos == "handshake" {
 				c.Frame, c.Off = -1, int64(f.N)
 			}
-			e.N.PlanCutNext(addr, c)
+			skip := 0
+			if f.Phase >= 2 {
+				skip = f.Phase - 1
+			}
+			e.N.PlanCutNextK(addr, skip, c)
 		default:
 			if mainFault == nil {
 				mainFault = f
